@@ -18,7 +18,7 @@ open XsVerif.History
 
 theorem inv_init (sch : Sch) : Inv sch Res.init := XsVerif.History.inv_init sch
 
-example : Inv ⟨[5], [((0, 10, 5), [11])], [], id, [0], [7]⟩ Res.init := inv_init _
+example : Inv { complex := [5], wtab := [((0, 10, 5), [11])], base := [], pure := id, nsBase := [0], loadable := [7] } Res.init := inv_init _
 
 /-- whatever a call does — on a whole document or aborted anywhere — the invariant of the residue is kept:
     additions to `selected_by` / `identity.elements` are widenings the schema permits, memo entries are in
@@ -153,6 +153,14 @@ theorem rebuild_resets (sch : Sch) (r : Res) (ctx : Ctx) (a : Bool) (pc : PC) (n
   | lax => simp [step, wildStep, hl, hd', rebuild]
   | strict => simp [step, wildStep, hl, hd', rebuild]
 
+/-- **`identity.elements` is a cache that is a function of its key**: with the invariant (`Inv.cacheOK`: the
+    selectors stored under a declaration are those of the declaration's own type) the field selectors that
+    extract the key values of an element are, for every collecting constraint and for EVERY algorithm, those of
+    the type the element is validated with — whatever earlier documents left in the cache -/
+theorem field_typing_neutral (sch : Sch) (m : Mode) (r : Res) (ctx : Ctx) (d : Decl) (t : TyId) (h : Inv sch r) :
+    (step sch m (r, ctx) (.fields d t)).2 = some (.typing ((ctx.filter (·.2)).map fun p => (p.1, t))) := by
+  simp only [step, typing_eq h]
+
 /-! ### the code before 1e49c64 (collection gated by `selected_by`; finding C10-F2, fixed) -/
 
 /-- on plain (no namespace lookups, no abort inside an xsi block), self-sufficient documents the gated code was
@@ -198,12 +206,14 @@ theorem gated_neutral_iff_selfSufficient (sch : Sch) (doc : List Step) (hc : pla
     10 = the shared global element `item`, 11 = the local element `x` of the extension type 5,
     12 = a global element `memb` of type 5 in the substitution group of `head`;
     namespace 0 = the schema's own (in the maps after the build), 7 = XLink / XHTML (bundled location),
-    9 = a namespace nobody has a location for -/
+    9 = a namespace nobody has a location for; types: 4 = Base, 5 = Ext, 8 = xs:anySimpleType (declared type of
+    12), 6 = xs:integer -/
 def wSch : Sch where
   complex := [5]
   wtab := [((0, 10, 5), [11]), ((1, 10, 5), [11])]
   base := []
   pure k := k
+  declTy := [(10, 4), (11, 3), (12, 8)]
   nsBase := [0]
   loadable := [7]
 
@@ -276,6 +286,30 @@ theorem lax_attr_noload_counterexample :
     (call wSch .laxAttrNoLoad (after wSch .laxAttrNoLoad [docE]) docT).2 = [.nsSeen true, .ns true false] ∧
     (call wSch .ungated Res.init docT).2.map (fun o => availOf (some o)) = [none, some true] ∧
     (call wSch .ungated (after wSch .ungated [docE]) docT).2.map (fun o => availOf (some o)) = [none, some true] := by
+  decide
+
+/-- seeded change C10-4: `collect_key_fields` stores the selectors it builds for a retyped COPY under the
+    declaration (`identity.elements.setdefault(declaration, selectors)`): the cache entry (constraint 0,
+    declaration 12) gets the typing of the xsi:type 6 although the declaration has type 8 … -/
+def cacheUnderDeclaration (r : Res) (c : Con) (d : Decl) (t : TyId) : Res :=
+  { r with cache := if (r.cache.lookup (c, d)).isSome then r.cache else ((c, d), t) :: r.cache }
+
+/-- … which breaks the invariant (the cache is no longer a function of its key) … -/
+theorem cache_under_declaration_breaks_inv : ¬ Inv wSch (cacheUnderDeclaration Res.init 0 12 6) := by
+  intro h
+  have := h.cacheOK ((0, 12), 6) (by decide)
+  revert this
+  decide
+
+/-- … and from that residue the code as it is extracts the keys of `<memb>01</memb><memb>1</memb>` (no
+    xsi:type) with the integer selectors of the earlier document: 01 = 1, a duplicate that a fresh schema does
+    not see.  Witness history: `<memb xsi:type="xs:integer">1</memb>` inside the scope, then the untyped one. -/
+theorem cache_under_declaration_counterexample :
+    (call wSch .ungated (cacheUnderDeclaration Res.init 0 12 6) [.enter [0], .fields 12 8]).2
+      = [.typing [(0, 6)]] ∧
+    (call wSch .ungated Res.init [.enter [0], .fields 12 8]).2 = [.typing [(0, 8)]] ∧
+    (call wSch .ungated (after wSch .ungated [[.enter [0], .fields 12 6, .fields 12 6]]) [.enter [0], .fields 12 8]).2
+      = [.typing [(0, 8)]] := by
   decide
 
 /-- the order matters.  A variant of the block that records the (type, constraint) pair for every counter of
